@@ -165,6 +165,36 @@ def run_shard(spec, acc):
                     acc.violation("wrong-definition-selected", f"PGN {pgn}: prescribed {want.id} but '{got}' returned", w)
                 if acc.evaluations % 499 == 0:
                     acc.sample(w)
+        # the selection is a function of the payload: it must be the same when the payload arrives frame by frame, and
+        # when the decoder carries id filters that permit this definition (only this id included / every sibling excluded)
+        if d.supported and d.type in ("Fast", "Single"):
+            sib_ids = [x.id for x in ds if x is not d]
+            variants = [("frames", {}), ("frames+include-own-id", {"include_pgns": [d.id]}), ("frames+exclude-sibling-ids", {"exclude_pgns": sib_ids} if sib_ids else {})]
+            decs = [(n_, NMEA2000Decoder(**kw)) for n_, kw in variants]
+            for rep in range(3 if quick else 40):
+                payload = dbx.pack(d, gen.base_raws(d, rng, dbx)) if d.fixed_layout else None
+                if payload is None or dbx.select(pgn, payload) is not d:
+                    continue
+                nb_p = d.length if d.length is not None else (d.total_bits() + 7) // 8
+                if (d.type == "Single" and nb_p > 8) or nb_p > 223:
+                    continue            # does not fit the frame-level formats
+                kind0, got0 = observe(dec, pgn, payload, nb_p)
+                if kind0 != "msg" or got0 != d.id:
+                    continue            # judged above
+                pb = payload.to_bytes(nb_p, "little")
+                frames = [pb] if d.type == "Single" else wire.fast_frames(pb, rep % 8, 0xFF)
+                ident = wire.can_id(3, pgn, 7, 255)
+                for n_, fd in decs:
+                    r = None
+                    try:
+                        for fr in frames:
+                            r = fd.decode_tcp(wire.ebyte_frame(ident, fr))
+                    except Exception:  # noqa: BLE001
+                        r = None
+                    acc.count("framewise_filtered_selections_compared")
+                    if r is None or r.id != d.id:
+                        acc.violation("selection-differs-frame-by-frame-or-under-id-filter", f"PGN {pgn}: {d.id} selected for the pre-assembled payload, "
+                                      f"{'nothing' if r is None else r.id} returned via {n_}", {"pgn": pgn, "payload_hex": pb.hex(), "built_for": d.id, "variant": n_})
         # pairs differing only outside match fields must select the same definition
         mm = 0
         for (off, bits) in positions:
